@@ -584,4 +584,176 @@ $h7 = function ($r, $w) use ($c11defaults, $c11flat, $c11label, $c11count, $c11h
 $cs->get('/s7/{id}', $h7);
 $cs->post('/s7/{id}', $h7);
 verif_server('cap', $cs);
+
+// shape 8: one object per request, built from request data; its methods run capture-less
+// closures / arrow fns / callbacks that use $this
+class C11Calc {
+    public $tok;
+    public $dir;
+    public $items = [];
+    public function __construct($tok, $dir) { $this->tok = $tok; $this->dir = $dir; }
+    public function add($x) { $this->items[] = $x; return $this; }
+    public function lines() { return array_map(fn($x) => $x . '@' . $this->tok, $this->items); }
+    public function sorted() {
+        $c = $this->items;
+        usort($c, function ($a, $b) { return ($a <=> $b) * $this->dir; });
+        return $c;
+    }
+    public function getter() { return function () { return 'g:' . $this->tok . ':' . count($this->items); }; }
+    public function each2() {
+        $out = [];
+        foreach ($this->items as $it) {
+            $f = fn($y) => $this->tok . '/' . $y;
+            $out[] = $f($it);
+            verif_yield();
+        }
+        return $out;
+    }
+    public function kept() {
+        $r = array_filter($this->items, function ($x) { return $x === ($this->tok . 'i1'); });
+        $o = [];
+        foreach ($r as $k => $v) { $o[] = $k . '>' . $v; }
+        $o[] = 'n' . count($r);
+        return $o;
+    }
+    public function folded() { return array_reduce($this->items, function ($acc, $x) { return $acc . $this->tok . ':' . $x . ';'; }, ''); }
+    public function nested() {
+        $outer = function () { $inner = fn($z) => $z . '~' . $this->tok; return $inner('n'); };
+        return $outer();
+    }
+}
+$os = new Server('127.0.0.1', 0);
+$h8 = function ($r, $w) {
+    $tok = $r->header('X-Tok');
+    $n = (int)$r->input('n');
+    $c = new C11Calc($tok, $n % 2 == 0 ? 1 : -1);
+    $c->add($r->input('t') . 'i2')->add($tok . 'i1')->add($r->pathValue('id') . 'i3');
+    for ($i = 0; $i < $n; $i++) { $c->add($r->userAgent() . 'x' . $i); }
+    $g = $c->getter();
+    $out = [];
+    $out[] = 'lines=' . implode(',', $c->lines());
+    verif_sync($tok);
+    verif_gate($r->header('X-Gate-Name'));
+    $out[] = 'sorted=' . implode(',', $c->sorted());
+    $out[] = 'getter=' . $g();
+    $out[] = 'each=' . implode(',', $c->each2());
+    $out[] = 'kept=' . implode(',', $c->kept());
+    $out[] = 'folded=' . $c->folded();
+    $out[] = 'nested=' . $c->nested();
+    $out[] = 'lines2=' . implode(',', $c->lines());
+    $w->header('X-Getter', $g());
+    $w->status(240 + count($c->items));
+    $w->write(implode("\n", $out));
+};
+$os->get('/s8/{id}', $h8);
+$os->post('/s8/{id}', $h8);
+verif_server('obj', $os);
+
+// shape 9: boot-time state (properties of a service object, a static property, globals
+// captured by value) whose arrays were normalised at boot with foreach-by-reference; every
+// request takes by-value copies and writes to them, the originals must stay untouched
+class C11Catalog {
+    public $rows = [];
+    public $prices = [];
+    public $plain = [];
+    public static $table = ['a' => 1, 'b' => 2, 'c' => 3];
+    public static $codes = [7, 8, 9];
+    public function __construct() {
+        $this->rows = [['sku' => 'pen', 'v' => 1], ['sku' => 'ink', 'v' => 5], ['sku' => 'pad', 'v' => 9]];
+        $this->prices = ['pen' => 1, 'ink' => 5, 'pad' => 9];
+        $this->plain = [3, 4, 5];
+        foreach ($this->rows as &$row) { $row['v'] = $row['v'] * 100; }
+        unset($row);
+        foreach ($this->prices as &$p) { $p = $p * 100; }
+        unset($p);
+        foreach ($this->plain as &$q) { $q = $q * 2; }
+        unset($q);
+    }
+    public static function boot() {
+        foreach (self::$table as &$t) { $t = $t * 10; }
+        unset($t);
+        foreach (self::$codes as &$c) { $c = $c + 1; }
+        unset($c);
+    }
+    // works on a by-value copy of the shared rows
+    public function quote($tok, $name) {
+        $rows = $this->rows;
+        for ($i = 0; $i < count($rows); $i++) { $rows[$i]['v'] = $rows[$i]['v'] . $tok; }
+        $rows[0]['sku'] = 'pen' . $tok;
+        verif_gate($name);
+        $o = [];
+        foreach ($rows as $row) { $o[] = $row['sku'] . '=' . $row['v']; }
+        return implode(' ', $o);
+    }
+    public function origRows() {
+        $o = [];
+        foreach ($this->rows as $row) { $o[] = $row['sku'] . '=' . $row['v']; }
+        return implode(' ', $o);
+    }
+}
+C11Catalog::boot();
+$c11cat = new C11Catalog();
+$c11boot = ['x' => 'bx', 'y' => 'by', 'z' => 'bz'];
+foreach ($c11boot as &$c11bv) { $c11bv = strtoupper($c11bv); }
+unset($c11bv);
+$c11list = [1, 2, 3];
+foreach ($c11list as &$c11lv) { $c11lv = $c11lv * 2; }
+unset($c11lv);
+$c11grid = [[1, 2], [3, 4], [5, 6]];
+foreach ($c11grid as &$c11gr) { $c11gr[0] = $c11gr[0] * 10; }
+unset($c11gr);
+function c11_kv($a) {
+    $o = [];
+    foreach ($a as $k => $v) { $o[] = $k . ':' . $v; }
+    return implode(',', $o);
+}
+$bs = new Server('127.0.0.1', 0);
+$bs->middleware(function ($request, $response, $next) use ($c11cat, $c11list) {
+    $tok = $request->header('X-Tok');
+    $mine = $c11cat->plain;
+    $mine[0] = $tok;
+    $mine[1] = $mine[1] . $tok;
+    $c11list[0] = 'm' . $tok;
+    $response->header('X-Mw-Boot', implode(',', $mine) . '|' . implode(',', $c11list));
+    $next($request, $response);
+    $response->write("\nmw-after=" . implode(',', $mine) . '|' . implode(',', $c11list) . '|' . implode(',', $c11cat->plain));
+}, 1);
+$h9 = function ($r, $w) use ($c11cat, $c11boot, $c11list, $c11grid) {
+    $tok = $r->header('X-Tok');
+    $n = (int)$r->input('n');
+    $prices = $c11cat->prices;
+    $prices['pen'] = $prices['pen'] . $tok;
+    $prices['ink'] = $r->input('t');
+    $t = C11Catalog::$table;
+    $t['a'] = $tok;
+    $t['b'] = $t['b'] . $r->pathValue('id');
+    $codes = C11Catalog::$codes;
+    $codes[0] = $tok;
+    $codes[1] = $codes[1] . $tok;
+    $c11boot['x'] = $tok;
+    $c11boot['y'] .= $r->userAgent();
+    $c11list[0] = $tok;
+    $c11list[1] = $c11list[1] . $tok;
+    $c11grid[0][1] = $tok;
+    $c11grid[1][0] = $c11grid[1][0] . $tok;
+    for ($i = 0; $i < $n; $i++) { $c11list[] = $tok . $i; }
+    verif_sync($tok);
+    $out = [];
+    $out[] = 'rows=' . $c11cat->quote($tok, $r->header('X-Gate-Name'));
+    $out[] = 'orig=' . $c11cat->origRows();
+    $out[] = 'prices=' . c11_kv($prices);
+    $out[] = 'origp=' . c11_kv($c11cat->prices);
+    $out[] = 'table=' . c11_kv($t);
+    $out[] = 'origt=' . c11_kv(C11Catalog::$table);
+    $out[] = 'codes=' . implode(',', $codes);
+    $out[] = 'origc=' . implode(',', C11Catalog::$codes);
+    $out[] = 'boot=' . c11_kv($c11boot);
+    $out[] = 'list=' . implode(',', $c11list);
+    $out[] = 'grid=' . implode(',', $c11grid[0]) . '/' . implode(',', $c11grid[1]) . '/' . implode(',', $c11grid[2]);
+    $w->header('X-Pen', $prices['pen']);
+    $w->write(implode("\n", $out));
+};
+$bs->get('/s9/{id}', $h9);
+$bs->post('/s9/{id}', $h9);
+verif_server('boot', $bs);
 `
